@@ -58,7 +58,10 @@ pub fn cflist_strategy(reg: Reg) -> impl Strategy<Value = Option<RefCfList>> {
     prop_oneof![
         3 => Just(None),
         4 => proptest::collection::vec(freq_strategy(reg), 5).prop_map(|f| Some(RefCfList::Type0([f[0] / 100, f[1] / 100, f[2] / 100, f[3] / 100, f[4] / 100]))),
-        3 => prop_oneof![Just([0xFFu8; 9]), Just([0u8; 9]), Just([0, 0, 0, 0, 0, 0, 0, 0, 0xFF]), Just([0xFF, 0, 0, 0, 0, 0, 0, 0, 0x01]), any::<[u8; 9]>()].prop_map(|m| Some(RefCfList::Type1(m))),
+        3 => prop_oneof![Just([0xFFu8; 9]), Just([0u8; 9]), Just([0, 0, 0, 0, 0, 0, 0, 0, 0xFF]), Just([0xFF, 0, 0, 0, 0, 0, 0, 0, 0x01]), any::<[u8; 9]>(),
+            // one sub-band (any of the eight banks) with its 500 kHz channel, or a sparse mask: one or two banks with arbitrary bits
+            (0usize..8).prop_map(|b| { let mut m = [0u8; 9]; m[b] = 0xFF; m[8] = 1 << b; m }),
+            (0usize..8, 0usize..8, any::<u8>(), any::<u8>(), any::<u8>()).prop_map(|(b1, b2, v1, v2, v8)| { let mut m = [0u8; 9]; m[b1] |= v1; m[b2] |= v2; m[8] = v8; m })].prop_map(|m| Some(RefCfList::Type1(m))),
         1 => any::<[u8; 16]>().prop_map(|r| Some(RefCfList::Raw(r))),
     ]
 }
